@@ -338,6 +338,7 @@ func propCases(prop string, g *Gen, n int) []*Case {
 		cases = append(cases, c)
 		return c
 	}
+	g.MaxSize = 16
 	knowing1 := [][]string{{}}
 	knowing2 := [][]string{{}, {}}
 	switch prop {
@@ -529,13 +530,20 @@ func propCases(prop string, g *Gen, n int) []*Case {
 	case "C13":
 		for i := 0; i < n; i++ {
 			var r *R
-			switch g.r.intn(3) {
-			case 0:
-				r = g.Multi(1 + g.r.intn(4))
-			case 1:
-				r = g.Wrapper(g.Multi(1+g.r.intn(3)), 1)
-			default:
-				r = g.Wrapper(g.Wrapper(g.Multi(1+g.r.intn(3)), 1), 1)
+			for {
+				g.nest++ // the size bound is applied here, on the whole recipe
+				switch g.r.intn(3) {
+				case 0:
+					r = g.Multi(1 + g.r.intn(4))
+				case 1:
+					r = g.Wrapper(g.Multi(1+g.r.intn(3)), 1)
+				default:
+					r = g.Wrapper(g.Wrapper(g.Multi(1+g.r.intn(3)), 1), 1)
+				}
+				g.nest--
+				if r.Size() <= 14 {
+					break
+				}
 			}
 			refs := g.identityRefs(r, 3)
 			hops := [][][]string{knowing1, {g.proc(1)}, g.hopSeq(2, false)}
